@@ -81,12 +81,17 @@ static std::string gen_synthetic(Draw &d, const SynOpts &o = SynOpts(), int *out
 struct TopoSpec {
   bool is_xml = false;
   std::string synth, xmlpath;
+  // snapshot sources (C18): HWLOC_FSROOT / HWLOC_CPUID_PATH / HWLOC_COMPONENTS, plus extra environment toggles
+  std::string fsroot, cpuid, components, snapname;
+  std::vector<std::pair<std::string, std::string>> envs;
+  bool is_snapshot() const { return !fsroot.empty() || !cpuid.empty(); }
   unsigned long flags = 0;
   int filters[HWLOC_OBJ_TYPE_MAX];   // -1 = leave default
   bool all_filter_set = false; int all_filter = 0;
   TopoSpec() { for (auto &f : filters) f = -1; }
   std::string text() const {
-    std::string s = is_xml ? "xml=" + xmlpath.substr(xmlpath.rfind('/') + 1) : "synthetic=\"" + synth + "\"";
+    std::string s = is_snapshot() ? "snapshot=" + snapname + " HWLOC_COMPONENTS=" + components : is_xml ? "xml=" + xmlpath.substr(xmlpath.rfind('/') + 1) : "synthetic=\"" + synth + "\"";
+    for (auto &e : envs) s += " " + e.first + "=" + e.second;
     s += strf(" flags=0x%lx", flags);
     if (all_filter_set) s += strf(" allfilter=%d", all_filter);
     for (int t = 0; t < HWLOC_OBJ_TYPE_MAX; t++) if (filters[t] >= 0) s += strf(" filter[%s]=%d", hwloc_obj_type_string((hwloc_obj_type_t)t), filters[t]);
@@ -111,11 +116,17 @@ struct SpecOpts {
   bool misc_keep = false;          // force Misc filter KEEP_ALL (harnesses that insert Misc objects)
 };
 
+static void gen_config(Draw &d, TopoSpec &sp, const SpecOpts &o);
 static TopoSpec gen_topospec(Draw &d, const SpecOpts &o = SpecOpts()) {
   TopoSpec sp;
   auto files = corpus_xml_files();
   if (!files.empty() && o.xml_num > 0 && d.chance(o.xml_num, o.xml_den)) { sp.is_xml = true; sp.xmlpath = d.pick(files); }
   else sp.synth = gen_synthetic(d, o.syn);
+  gen_config(d, sp, o);
+  return sp;
+}
+// flags and type filters (any source)
+static void gen_config(Draw &d, TopoSpec &sp, const SpecOpts &o) {
   if (o.gen_flags && d.chance(1, 2)) {
     if (d.chance(1, 2)) sp.flags |= HWLOC_TOPOLOGY_FLAG_INCLUDE_DISALLOWED;
     if (d.chance(1, 4)) sp.flags |= HWLOC_TOPOLOGY_FLAG_IMPORT_SUPPORT;
@@ -140,7 +151,6 @@ static TopoSpec gen_topospec(Draw &d, const SpecOpts &o = SpecOpts()) {
     }
   }
   if (o.misc_keep) sp.filters[HWLOC_OBJ_MISC] = HWLOC_TYPE_FILTER_KEEP_ALL;
-  return sp;
 }
 
 // Applies the configuration to an initialised topology, checking the documented return values of the configuration calls.
@@ -168,7 +178,12 @@ static int apply_spec_and_load(Case &c, hwloc_topology_t t, const TopoSpec &sp) 
       c.cls("filter:illegal-rejected");
     }
   }
-  if (sp.is_xml) { r = hwloc_topology_set_xml(t, sp.xmlpath.c_str()); CHECK(c, r == 0, "set_xml", "set_xml(%s) failed errno %d", sp.xmlpath.c_str(), errno); }
+  if (sp.is_snapshot()) {
+    if (!sp.fsroot.empty()) setenv("HWLOC_FSROOT", sp.fsroot.c_str(), 1); else unsetenv("HWLOC_FSROOT");
+    if (!sp.cpuid.empty()) setenv("HWLOC_CPUID_PATH", sp.cpuid.c_str(), 1); else unsetenv("HWLOC_CPUID_PATH");
+    setenv("HWLOC_COMPONENTS", sp.components.c_str(), 1);
+    for (auto &e : sp.envs) setenv(e.first.c_str(), e.second.c_str(), 1);
+  } else if (sp.is_xml) { r = hwloc_topology_set_xml(t, sp.xmlpath.c_str()); CHECK(c, r == 0, "set_xml", "set_xml(%s) failed errno %d", sp.xmlpath.c_str(), errno); }
   else { r = hwloc_topology_set_synthetic(t, sp.synth.c_str()); CHECK(c, r == 0, "set_synthetic", "generated description rejected: %s", sp.synth.c_str()); }
   return hwloc_topology_load(t);
 }
